@@ -131,13 +131,45 @@ def extract_one(kind, path, ty):
     f["readerStops"] = stops
     # --- fail_all_pending --------------------------------------------------------------------------
     fa = fn_body(src, "fail_all_pending")
+    # does the registration refuse once the connection is marked failed (flag read under the pending lock)?
+    reg_refuses = False
+    if guard_based:
+        rb = fn_body(impl_block(src, r"impl PendingRequestGuard\s*\{"), "register")
+        lk = _pos(r"lock_pending_map\s*\(|pending\s*\.\s*lock\s*\(", rb, "register lock", required=False)
+        ld = _pos(r"failed\s*\.\s*load\s*\(", rb, "failed.load", required=False)
+        ins2 = _pos(r"pending\s*\.\s*insert\s*\(", rb, "insert", required=False)
+        reg_refuses = (lk is not None and ld is not None and ins2 is not None and lk < ld < ins2
+                       and re.search(r"return\s+Err", rb[ld:ins2]) is not None)
+    f["registerRefusesWhenFailed"] = reg_refuses
+
+    def innermost_block(text, pos):
+        from rustlex import match_brace
+        best = None
+        for m in re.finditer(r"\{", text):
+            if m.start() > pos:
+                break
+            try:
+                e = match_brace(text, m.start())
+            except ExtractError:
+                continue
+            if e > pos and (best is None or m.start() > best[0]):
+                best = (m.start(), e)
+        return text[best[0]:best[1]] if best else text
+
     marks = []
     # writer shutdown = anything after which `write_request` fails: socket shutdown, WebSocket close,
-    # or raising the `failed` flag that `write_request` races against
+    # or raising a `failed` flag that `write_request` races against
     for name, rx in [("shutdownWriter", r"\.\s*shutdown\s*\(|close_writer\s*\(|failed\s*\.\s*send_replace\s*\(\s*true"), ("takeNotify", r"take_notify_sender\s*\("),
                      ("drainPending", r"\.\s*drain\s*\(\s*\)"), ("sendErrors", r"\.\s*send\s*\(\s*Err\s*\(")]:
         for m in re.finditer(rx, fa):
-            marks.append((m.start(), name))
+            n = name
+            if name == "drainPending":
+                blk = innermost_block(fa, m.start())
+                locked = re.search(r"lock_pending_map\s*\(|pending\s*\.\s*lock\s*\(", blk) is not None
+                marked = re.search(r"failed\s*\.\s*store\s*\(\s*true", blk) is not None
+                if locked and marked and reg_refuses:
+                    n = "closeAndDrain"   # same critical section marks the connection failed; register refuses
+            marks.append((m.start(), n))
     order = [n for _, n in sorted(marks)]
     f["failOrder"] = order
     f["failLine"] = _line(src, fa, 0)
